@@ -50,6 +50,16 @@ def calls(rng):
         pool.append(('query:' + q, lambda j, q=q: j.model('xta', XTA_OK).query(q, rt=False)))
     for part, txt in ((9, 'i == 0 && x >= 1'), (11, 'i = 1, x = 0'), (6, 'x <= 3'), (1, 'int k; clock y;'), (9, 'i == ( '), (10, 'c!')):
         pool.append(('part%d:%s' % (part, txt), lambda j, part=part, txt=txt: j.model('xta', XTA_OK).part(part, txt).dump('errors')))
+    # every xta_part_t, also as the first parse on a fresh document (no enclosing template / edge / instance line: the callbacks report that, and the
+    # position of the report must not depend on what was parsed before) and with an empty text
+    PARTS = {1: 'int k; clock y;', 2: 'int m = 2;', 3: 'Q = P();', 4: 'system P;', 5: 'int a, const int b', 6: 'x <= 3', 7: '2', 8: 'i : int[0,3]', 9: 'i == 0', 10: 'c!', 11: 'i = 1', 12: 'i + 1',
+             13: 'i + 1, 2', 14: 'A[] i >= 0', 15: 'process R() { state A; init A; }', 16: '3', 17: 'P', 18: 'msg', 19: 'i = 2', 20: 'i > 0'}
+    for part, txt in sorted(PARTS.items()):
+        pool.append(('fresh-part%d:%s' % (part, txt), lambda j, part=part, txt=txt: j.part(part, txt).dump('errors')))
+        if part not in (9, 11, 6, 1, 10):
+            pool.append(('part%d:%s' % (part, txt), lambda j, part=part, txt=txt: j.model('xta', XTA_OK).part(part, txt).dump('errors')))
+    for part in (6, 9, 12, 16):
+        pool.append(('fresh-part%d:empty' % part, lambda j, part=part: j.part(part, '').dump('errors')))
     return pool
 
 
